@@ -3,7 +3,7 @@ PROP = {
     "technique": ("runtime monitor: graph-snapshot differential oracle + broadcast monitor around a real "
                   "AuthenticatedGossiper over a real graph.Builder/bbolt graph DB, judged by a harness-side "
                   "BOLT-7 reference validity predicate"),
-    "level_text": ("256 (quick) / 16000 (thorough) PRNG scenarios of 40 remote gossip messages each (valid channel_announcement / channel_update / "
+    "level_text": ("256 (quick) / 14000 (thorough) PRNG scenarios of 40 remote gossip messages each (valid channel_announcement / channel_update / "
                    "node_announcement sets from PRNG keys, every single-field corruption with and without re-signing, "
                    "single-byte corruptions of the signed region and of the signatures, replays, orderings incl. "
                    "update-before-channel and not-yet-mined funding blocks, spent / mismatching / missing funding "
@@ -43,8 +43,8 @@ PROP = {
         "floors": {"quick": {"msgs": 4900, "oracle_graph_evals": 5000, "oracle_bcast_evals": 1000,
                              "ref_invalid": 3700, "applied_ca": 400, "applied_cu": 350, "applied_na": 270,
                              "premature_reprocessed": 60, "future_reinjected": 12},
-                   "thorough": {"msgs": 300000, "oracle_graph_evals": 320000, "oracle_bcast_evals": 65000,
-                                "ref_invalid": 240000, "applied_ca": 25000, "applied_cu": 22000,
-                                "applied_na": 17000, "premature_reprocessed": 4000, "future_reinjected": 1100}},
+                   "thorough": {"msgs": 270000, "oracle_graph_evals": 280000, "oracle_bcast_evals": 55000,
+                                "ref_invalid": 210000, "applied_ca": 20000, "applied_cu": 19000,
+                                "applied_na": 15000, "premature_reprocessed": 3800, "future_reinjected": 1000}},
     }],
 }
